@@ -142,10 +142,12 @@ def unit_set(rnd):
             if rnd.random() < 0.25:
                 # the same unit referenced more than once in one unit, and next to a hand-written dependency on its service
                 v = ref('volume')
-                L += [f'Volume={v}:/first', rnd.choice([f'Volume={v}:/second:ro', f'Mount=type=volume,source={v},dst=/m2'])]
+                # (the fields of a Mount= are a set: type= may stand anywhere)
+                L += [f'Volume={v}:/first', rnd.choice([f'Volume={v}:/second:ro', f'Mount=type=volume,source={v},dst=/m2', f'Mount=source={v},dst=/m2,type=volume',
+                                                        f'Mount=dst=/m2,type=volume,src={v}'])]
             if rnd.random() < 0.1:
                 im = ref('image')
-                L += [f'Mount=type=image,source={im},dst=/i1', f'Mount=type=image,src={im},dst=/i2']
+                L += [rnd.choice([f'Mount=type=image,source={im},dst=/i1', f'Mount=source={im},type=image,dst=/i1']), f'Mount=type=image,src={im},dst=/i2']
             for _ in range(rnd.randint(0, 2)):
                 L.append('Volume=' + rnd.choice([ref('volume') + ':/data', ref('volume') + ':/d:ro', '/host:/c', 'named:/n', ref('volume') + ':/d:ro:z,U',
                                                  ref('volume'), '/only-dest', ref('volume') + ':/d:']))
